@@ -1,6 +1,238 @@
-(* C06 — stub: model not yet built (the property is listed under not_applicable until it is). *)
-From Coq Require Import List ZArith Bool.
+(* C06 — Panic and Fatal always terminate, after the entry is written and flushed.
+   Model (on top of the core tree of C05/Cores.v) of
+     logger.go      Logger.check: terminal hook attached whatever Core.Check answered,
+                    terminalHookOverride (nil / WriteThenNoop replaced by the default)
+     options.go     Development, WithPanicHook, WithFatalHook / OnFatal
+     zapcore/entry.go  CheckedEntry.Write: cores in order, then the hook; CheckWriteAction.OnWrite
+     zapcore/core.go   ioCore.Write: write, then Sync when ent.Level > ErrorLevel
+     the front-end methods of Logger, SugaredLogger, zapgrpc.Logger, zapio.Writer and the
+     std-log bridge, as a table (method -> family of C05/Cores.v -> guards).
+   No proofs in this file.
+
+   input  = (tree cells dev onpanic onfatal child (call ...))     tree/cells as in C05/Model.v (all leaves are IO cores)
+     hook cfg = (0) nil | (1) WriteThenNoop | (2) WriteThenGoexit | (3) WriteThenPanic | (4) WriteThenFatal | (5 k) custom hook k
+     call  = (recv kind suffix level)
+     special input (table): the observation must be the method table
+   observation = ((o ...) (flushed ...)):  o = ((ev ...) term), ev = (0 id) Write | (1 id) Sync | (2 h) hook,
+     term = () | (0) panic carrying the message | (1) exit status 1 | (2) Goexit | (3 k) custom hook k ran;
+     flushed (child-process cases only) = lines found in the file behind each leaf's buffered sink *)
+From Coq Require Import List ZArith Bool Lia Arith.
+From Coq.Strings Require Import Byte.
 Import ListNotations.
-From Zap Require Import Base.Wire.
-Definition model (i : sx) : sx := SL [].
-Definition spec (i o : sx) : bool := false.
+From Zap Require Import Base.Wire C05.Cores C05.Model.
+Open Scope Z_scope.
+
+(* ---------------- front-end methods ---------------- *)
+Inductive recv := RLogger | RSugar | RGrpc | RZapio | RStdLog.
+Inductive kind := KLog | KDebug | KInfo | KWarn | KError | KDPanic | KPanic | KFatal | KCheck | KPrint.
+Inductive suffix := SNone | Sf | Sw | Sln.
+Record method := { m_recv : recv; m_kind : kind; m_suffix : suffix }.
+
+Definition level_kinds : list kind := [KDebug; KInfo; KWarn; KError; KDPanic; KPanic; KFatal].
+(* every exported logging method (the harness checks this list against the method sets by reflection):
+   Logger.{Log,Debug,..,Fatal,Check}; SugaredLogger.{Log,Debug,..,Fatal}{,f,w,ln};
+   zapgrpc.Logger.{Info,Warning,Error,Fatal,Print}{,f,ln};
+   NewStdLogAt/RedirectStdLogAt (level parameter) and NewStdLog/RedirectStdLog (info) *)
+Definition methods : list method :=
+  map (fun k => {| m_recv := RLogger; m_kind := k; m_suffix := SNone |}) (KLog :: level_kinds ++ [KCheck]) ++
+  flat_map (fun s => map (fun k => {| m_recv := RSugar; m_kind := k; m_suffix := s |}) (KLog :: level_kinds)) [SNone; Sf; Sw; Sln] ++
+  flat_map (fun s => map (fun k => {| m_recv := RGrpc; m_kind := k; m_suffix := s |}) [KInfo; KWarn; KError; KFatal; KPrint]) [SNone; Sf; Sln] ++
+  [ {| m_recv := RStdLog; m_kind := KLog; m_suffix := SNone |};
+    {| m_recv := RStdLog; m_kind := KInfo; m_suffix := SNone |} ].
+(* zapio.Writer is not among the front ends the property enumerates; it is modelled (family FZapio)
+   and satisfies the termination statement only when its level is enabled: see C06_zapio_partial *)
+Definition zapio_method : method := {| m_recv := RZapio; m_kind := KLog; m_suffix := SNone |}.
+
+Definition kind_level (k : kind) : option level :=
+  match k with
+  | KDebug => Some DebugL | KInfo => Some InfoL | KWarn => Some WarnL | KError => Some ErrorL
+  | KDPanic => Some DPanicL | KPanic => Some PanicL | KFatal => Some FatalL
+  | KLog | KCheck | KPrint => None
+  end.
+(* the levels a method can log at *)
+Definition can_log (m : method) (l : level) : bool :=
+  match m_kind m with
+  | KLog | KCheck => match m_recv m with RStdLog => is_valid l | _ => true end   (* levelToFunc rejects other values *)
+  | KPrint => (l =? InfoL) || (l =? DebugL)                                      (* zapgrpc.WithDebug *)
+  | k => match kind_level k with Some x => l =? x | None => false end
+  end.
+Definition fam_of (m : method) : fam :=
+  match m_recv m with
+  | RLogger => match m_kind m with KCheck => FCheck | _ => FLogger end
+  | RSugar => match m_suffix m with SNone => FSugar | Sf => FSugarf | Sw => FSugarw | Sln => FSugarln end
+  | RGrpc =>
+      match m_kind m, m_suffix m with
+      | (KFatal | KPrint), Sln => FGrpcPrintln
+      | (KFatal | KPrint), _ => FGrpcPrint
+      | _, Sln => FGrpcLn
+      | _, _ => FGrpcDirect
+      end
+  | RZapio => FZapio
+  | RStdLog => FStdLog
+  end.
+
+(* ---------------- logger configuration ---------------- *)
+Inductive hookcfg := HNil | HNoop | HGoexit | HPanic | HFatal | HCustom (k : nat).
+Inductive action := APanic | AExit | AGoexit | ACustom (k : nat).
+Record logger := { lcore : core; dev : bool; on_panic : hookcfg; on_fatal : hookcfg }.
+
+(* terminalHookOverride(defaultHook, override) *)
+Definition override (default : action) (h : hookcfg) : action :=
+  match h with
+  | HNil | HNoop => default
+  | HGoexit => AGoexit | HPanic => APanic | HFatal => AExit | HCustom k => ACustom k
+  end.
+(* the switch on ent.Level in Logger.check *)
+Definition after_hook (lg : logger) (l : level) : option action :=
+  if l =? PanicL then Some (override APanic (on_panic lg))
+  else if l =? FatalL then Some (override AExit (on_fatal lg))
+  else if l =? DPanicL then (if dev lg then Some (override APanic (on_panic lg)) else None)
+  else None.
+
+(* ---------------- CheckedEntry.Write ---------------- *)
+Inductive ev := EWrite (id : nat) | ESync (id : nat) | EHook (h : nat).
+(* ioCore.Write syncs when ent.Level > ErrorLevel; observer cores (io id = false) have nothing to sync *)
+Definition write_events (io : nat -> bool) (l : level) (ws : list writer) : list ev :=
+  flat_map (fun x => match x with
+                     | WLeaf i => EWrite i :: (if io i && (ErrorL <? l) then [ESync i] else [])
+                     | WHook h => [EHook h]
+                     end) ws.
+
+(* the rest of Logger.check and ce.Write, given what Core.Check answered (e): a nil entry
+   with no terminal hook returns early; otherwise cores are written in order, then the hook runs *)
+Definition finish (lg : logger) (io : nat -> bool) (l : level) (e : ce) : list ev * option action :=
+  match e, after_hook lg l with
+  | None, None => ([], None)
+  | _, a => (write_events io l (cores_of e), a)
+  end.
+
+(* one call through method family f *)
+Definition log_call (w : world) (lg : logger) (io : nat -> bool) (f : fam) (l : level) : list ev * option action :=
+  if reaches_check w (lcore lg) f l then finish lg io l (logger_check w (lcore lg) l) else ([], None).
+(* the same with the guards of the code before the zapgrpc fix *)
+Definition log_call_orig (w : world) (lg : logger) (io : nat -> bool) (f : fam) (l : level) : list ev * option action :=
+  if forallb (guard_pass w (lcore lg) l) (guards_of_orig f) then finish lg io l (logger_check w (lcore lg) l) else ([], None).
+
+(* a buffered sink, abstractly: Write queues the line, Sync moves everything queued to the file *)
+Fixpoint flushed_lines (id : nat) (evs : list ev) (pending done : nat) : nat :=
+  match evs with
+  | [] => done
+  | EWrite i :: r => if Nat.eqb i id then flushed_lines id r (S pending) done else flushed_lines id r pending done
+  | ESync i :: r => if Nat.eqb i id then flushed_lines id r 0 (done + pending) else flushed_lines id r pending done
+  | EHook _ :: r => flushed_lines id r pending done
+  end.
+
+(* ---------------- wire ---------------- *)
+Definition dec_recv (z : Z) : recv := match z with 0 => RLogger | 1 => RSugar | 2 => RGrpc | 3 => RZapio | _ => RStdLog end.
+Definition dec_kind (z : Z) : kind :=
+  match z with 0 => KLog | 1 => KDebug | 2 => KInfo | 3 => KWarn | 4 => KError | 5 => KDPanic | 6 => KPanic | 7 => KFatal | 8 => KCheck | _ => KPrint end.
+Definition dec_suffix (z : Z) : suffix := match z with 0 => SNone | 1 => Sf | 2 => Sw | _ => Sln end.
+Definition enc_recv (r : recv) : Z := match r with RLogger => 0 | RSugar => 1 | RGrpc => 2 | RZapio => 3 | RStdLog => 4 end.
+Definition enc_kind (k : kind) : Z :=
+  match k with KLog => 0 | KDebug => 1 | KInfo => 2 | KWarn => 3 | KError => 4 | KDPanic => 5 | KPanic => 6 | KFatal => 7 | KCheck => 8 | KPrint => 9 end.
+Definition enc_suffix (s : suffix) : Z := match s with SNone => 0 | Sf => 1 | Sw => 2 | Sln => 3 end.
+Definition enc_method (m : method) : sx := SL [SZ (enc_recv (m_recv m)); SZ (enc_kind (m_kind m)); SZ (enc_suffix (m_suffix m))].
+
+Definition dec_hook (s : sx) : hookcfg :=
+  match sx_z (sx_nth s 0) with
+  | 0 => HNil | 1 => HNoop | 2 => HGoexit | 3 => HPanic | 4 => HFatal | _ => HCustom (sx_n (sx_nth s 1))
+  end.
+Definition enc_ev (e : ev) : sx :=
+  match e with EWrite i => SL [SZ 0; of_nat i] | ESync i => SL [SZ 1; of_nat i] | EHook h => SL [SZ 2; of_nat h] end.
+Definition dec_ev (s : sx) : ev :=
+  match sx_z (sx_nth s 0) with 0 => EWrite (sx_n (sx_nth s 1)) | 1 => ESync (sx_n (sx_nth s 1)) | _ => EHook (sx_n (sx_nth s 1)) end.
+Definition enc_term (a : option action) : sx :=
+  match a with
+  | None => SL []
+  | Some APanic => SL [SZ 0] | Some AExit => SL [SZ 1] | Some AGoexit => SL [SZ 2] | Some (ACustom k) => SL [SZ 3; of_nat k]
+  end.
+
+Record call := { c_method : method; c_level : level }.
+Definition dec_call (s : sx) : call :=
+  {| c_method := {| m_recv := dec_recv (sx_z (sx_nth s 0)); m_kind := dec_kind (sx_z (sx_nth s 1)); m_suffix := dec_suffix (sx_z (sx_nth s 2)) |};
+     c_level := sx_z (sx_nth s 3) |}.
+
+Definition all_io (id : nat) : bool := true.
+Definition leaf_ids (c : core) : list nat := map snd (paths c).
+
+Definition is_table (i : sx) : bool := match i with SB _ => true | _ => false end.
+
+Definition dec_logger (ok : world -> core -> enabler -> bool) (w0 : world) (i : sx) : logger :=
+  {| lcore := fst (build_with ok w0 (sx_nth i 0)); dev := sx_bool (sx_nth i 2);
+     on_panic := dec_hook (sx_nth i 3); on_fatal := dec_hook (sx_nth i 4) |}.
+
+Definition model_call (w : world) (lg : logger) (cl : call) : sx :=
+  let '(evs, a) := log_call w lg all_io (fam_of (c_method cl)) (c_level cl) in
+  SL [SL (map enc_ev evs); enc_term a].
+
+Definition model (i : sx) : sx :=
+  if is_table i then SL (map enc_method methods) else
+  let w0 := world_of (sx_nth i 1) in
+  let lg := dec_logger increase_ok w0 i in
+  let calls := map dec_call (sx_l (sx_nth i 6)) in
+  let child := sx_bool (sx_nth i 5) in
+  SL [SL (map (model_call w0 lg) calls);
+      SL (match calls with
+          | [cl] => if child then
+                      map (fun id => of_nat (flushed_lines id (fst (log_call w0 lg all_io (fam_of (c_method cl)) (c_level cl))) 0 0))
+                          (leaf_ids (lcore lg))
+                    else []
+          | _ => []
+          end)].
+
+(* ---------------- the oracle (written against C05's path specification) ---------------- *)
+(* the terminal action a call at level l must end with *)
+Definition hook_or (default : action) (h : hookcfg) : action :=
+  match h with HGoexit => AGoexit | HPanic => APanic | HFatal => AExit | HCustom k => ACustom k | HNil | HNoop => default end.
+Definition must_end (lg : logger) (l : level) : option action :=
+  if existsb (Z.eqb l) [PanicL] then Some (hook_or APanic (on_panic lg))
+  else if existsb (Z.eqb l) [FatalL] then Some (hook_or AExit (on_fatal lg))
+  else if (l =? DPanicL) && dev lg then Some (hook_or APanic (on_panic lg))
+  else None.
+
+Definition writes_of (evs : list ev) : list nat := flat_map (fun e => match e with EWrite i => [i] | _ => [] end) evs.
+Definition ev_hooks_of (evs : list ev) : list nat := flat_map (fun e => match e with EHook h => [h] | _ => [] end) evs.
+(* every Write above error level is immediately followed by the Sync of the same sink; no other Sync *)
+Fixpoint sync_ok (hi : bool) (evs : list ev) : bool :=
+  match evs with
+  | [] => true
+  | EWrite i :: r =>
+      if hi then match r with ESync j :: r' => Nat.eqb i j && sync_ok hi r' | _ => false end
+      else sync_ok hi r
+  | ESync _ :: _ => false
+  | EHook _ :: r => sync_ok hi r
+  end.
+Definition action_eqb (a b : option action) : bool := sx_eqb (enc_term a) (enc_term b).
+
+Definition spec_call (w : world) (lg : logger) (cl : call) (o : sx) : bool :=
+  let evs := map dec_ev (sx_l (sx_nth o 0)) in
+  let l := c_level cl in
+  nat_list_eqb (writes_of evs) (delivered w (lcore lg) l) &&       (* handed to every accepting core, in order *)
+  nat_list_eqb (ev_hooks_of evs) (hooks_due w (lcore lg) l) &&
+  sync_ok (ErrorL <? l) evs &&                                     (* IO cores synced before control is lost *)
+  sx_eqb (sx_nth o 1) (enc_term (must_end lg l)).                  (* and then the terminal action, or none *)
+Fixpoint spec_calls (w : world) (lg : logger) (cls : list call) (os : list sx) : bool :=
+  match cls, os with
+  | [], [] => true
+  | cl :: r, o :: os' => spec_call w lg cl o && spec_calls w lg r os'
+  | _, _ => false
+  end.
+Definition count_writes (id : nat) (l : list nat) : nat := length (filter (Nat.eqb id) l).
+
+Definition spec (i o : sx) : bool :=
+  if is_table i then sx_eqb o (SL (map enc_method methods)) else
+  let w0 := world_of (sx_nth i 1) in
+  let lg := dec_logger spec_increase_ok w0 i in
+  let calls := map dec_call (sx_l (sx_nth i 6)) in
+  let child := sx_bool (sx_nth i 5) in
+  spec_calls w0 lg calls (sx_l (sx_nth o 0)) &&
+  (* child process running one call: after the process is gone, the file behind every buffered
+     sink holds one line per delivery of an entry above error level *)
+  (match calls with
+   | [cl] => if child then
+               nat_list_eqb (map sx_n (sx_l (sx_nth o 1)))
+                 (map (fun id => if ErrorL <? c_level cl then count_writes id (delivered w0 (lcore lg) (c_level cl)) else 0%nat)
+                      (leaf_ids (lcore lg)))
+             else true
+   | _ => true
+   end).
